@@ -489,6 +489,9 @@ def run_history(sc: dict, wall_limit: float = 30.0) -> dict:
             c.create_raw(kex, "ns", o["name"], o.get("body", {"spec": {"x": 0}}))
         if sc.get("peering"):
             c.create_raw(fakeapi.CLUSTER_PEERING, None, "default", {})
+        if sc.get("crd_object"):                # the CRD of the served resource exists as an object (its deletion is an event)
+            c.create_raw(fakeapi.CRDS, None, f"{kex.plural}.{kex.group}",
+                         {"spec": {"group": kex.group, "names": {"plural": kex.plural, "kind": kex.kind}}})
 
         if sc.get("initial_faults"):
             c.fault_rules.append(_fault_rule(sc["initial_faults"], fakeapi))
@@ -539,6 +542,10 @@ def run_history(sc: dict, wall_limit: float = 30.0) -> dict:
                 elif kind == "new_crd":          # a CRD event makes the resource observer re-scan the group
                     extra_n += 1
                     c.add_resource(fakeapi.ResourceDef("kopf.dev", "v1", f"extras{extra_n}", f"Extra{extra_n}"))
+                elif kind == "crd_delete":       # the served CRD is deleted: its watch streams end, list/watch answer 404
+                    c.remove_resource(kex)
+                elif kind == "crd_create":       # ... and created again
+                    c.add_resource(kex)
                 elif kind == "mark":
                     pass
                 else:
